@@ -218,6 +218,12 @@ def run_shard(spec, ctx):
                 p = r.choice(s)
                 R.expect("find(%s, %s)" % (S, src(p)), rs.find(s, p), "find:list:hit", ("find", S, src(p)))
                 R.expect("find_last(%s, %s)" % (S, src(p)), rs.find_last(s, p), "find_last:list:random", ("findl", S, src(p)))
+                # names of the calling scope are the caller's business: a variable, a parameter or a function called
+                # identity / key / start / compare there does not change what find looks for
+                R.expect("def pos_(items, identity) [find(items, identity), find_last(items, identity)]; pos_(%s, %s)" % (S, src(p)), [rs.find(s, p), rs.find_last(s, p)],
+                         "find:caller-names:parameter", ("find-names-param", S, src(p)))
+                R.expect("def identity(n_) 'shadowed'; def key = 1; def start = 99; def compare(a_, b_) 0; [find(%s, %s), find_last(%s, %s)]" % (S, src(p), S, src(p)),
+                         [rs.find(s, p), rs.find_last(s, p)], "find:caller-names:definitions", ("find-names-defs", S, src(p)))
                 # NULL is an element like any other
                 sn = list(s)
                 for _q in range(r.randint(0, 2)):
